@@ -74,6 +74,23 @@ def check_case(case, shard):
         v = kw_n["func"](tb.astensor(x) if case["backend"] != "jax" else x)
         return float(to_np(v).reshape(-1)[0])
 
+    # the optimisers hand the function ONE numpy array that they update in place between calls: evaluate at another
+    # point, overwrite the same array with this point, evaluate again - the answer must be the one obtained above
+    try:
+        import numpy as np
+        xa = np.array([min(max(v + 0.013 * (i + 1), b_[0] + 1e-3), b_[1] - 1e-3) for i, (v, b_) in enumerate(zip(x0, [bounds[j] for j in idx_map]))], dtype=float)
+        kw_g["func"](xa)
+        xa[:] = np.array(x0, dtype=float)
+        val2, grad2 = kw_g["func"](xa)
+        val2 = float(to_np(val2).reshape(-1)[0])
+        grad2 = [float(g) for g in to_np(grad2).reshape(-1)]
+        if not (abs(val2 - val) <= 1e-12 * (abs(val) + 1) and len(grad2) == len(grad) and all(abs(a - b_) <= 1e-10 * (abs(b_) + 1) for a, b_ in zip(grad2, grad))):
+            shard.violate(f"C13/stale-after-in-place-update:{case['backend']}", f"after the caller's array was overwritten in place with the point, value/gradient {val2!r}/{grad2[:3]} differ from a direct evaluation {val!r}/{grad[:3]}; {ctx}", case, "value")
+        else:
+            shard.ok("value")
+            shard.covered("call_histories", "same array updated in place between calls")
+    except Exception as e:
+        shard.violate(f"C13/func-raised:{case['backend']}", f"value-and-gradient function raised {type(e).__name__} on a numpy array: {str(e)[:200]}; {ctx}", case, "value")
     v_n = fn(x0)
     if not math.isfinite(v_n):
         shard.skip("objective not finite at the point (out of domain)")
